@@ -70,6 +70,7 @@ class Recorder:
         self.violations = []          # list of dict
         self.viol_count = collections.Counter()  # signature -> occurrences (all, not only kept)
         self.rechecked = 0
+        self.nondet = []              # determinism self-check failures
 
     # --- recording ---------------------------------------------------------------------------
     def violation(self, signature, case, expected=None, observed=None, detail=None):
@@ -95,6 +96,7 @@ class Recorder:
         self.counters.update(o.counters)
         self.samples.extend(o.samples)
         self.rechecked += o.rechecked
+        self.nondet.extend(o.nondet[:3])
         for v in o.violations:
             self.violations.append(v)
         self.viol_count.update(o.viol_count)
@@ -150,8 +152,9 @@ class Ctx:
                     obs2 = run_case(case, r2)
                     rec.rechecked += 1
                     if repr(obs) != repr(obs2):
-                        raise HarnessError('nondeterministic observation for case %s: %r vs %r'
-                                           % (jdump(case)[:300], obs, obs2))
+                        # not fatal at once: a genuine violation found elsewhere is still reported (exit 1);
+                        # without one the run ends as a harness ERROR (exit 2), never as a verdict
+                        rec.nondet.append('case %s: %s vs %s' % (jdump(case)[:300], repr(obs)[:300], repr(obs2)[:300]))
                 if idx % 7919 == (seed % 7919):
                     rec.sample(case)
             return rec
@@ -350,6 +353,7 @@ def finish(ctx):
         outcomes=dict(sorted(((str(k), v) for k, v in rec.outcomes.items()), key=lambda kv: -kv[1])[:40]),
         counters=dict(rec.counters),
         determinism_rechecks=rec.rechecked,
+        determinism_failures=len(rec.nondet),
         vacuity_guards=[dict(name=g[0], ok=g[1], detail=str(g[2])) for g in ctx.guards],
         known_findings_hit=[dict(id=eid, occurrences=n) for eid, (ent, n, v) in hits.items()],
         violation_signatures=list(real.keys())[:50],
@@ -369,6 +373,10 @@ def finish(ctx):
           'outcomes=%d known=%d violations=%d wall=%.1fs'
           % (prop, ctx.tier, ctx.seed, states, rec.transitions, rec.traces, rec.evaluations, nontrivial,
              len(rec.outcomes), len(hits), len(real), wall))
+    if rec.nondet and not real:
+        for n in rec.nondet[:3]:
+            print('ERROR nondeterministic observation on re-execution: %s' % n)
+        return 2
     if failed_guards and not real:
         for g in failed_guards:
             print('ERROR vacuity guard failed: %s %s' % (g[0], g[2]))
